@@ -169,7 +169,7 @@ fn core_plan(prop: &str, thorough: bool, seed: u64, all_cases: &[CaseRec], tidx:
                     };
                     replay_case(case, &inst, &cfg, &want_prop, &mut r, &mut st);
                     // parser layers: the message is a JSON object
-                    if i % 4 == 0 || *len < 70 {
+                    if i % 4 == 0 || *len < 70 || *len > 1000 {
                         let spec = InstSpec { json_msg: true, ..spec };
                         let inst = make_instance(&spec, &pairs, &mut r);
                         let cfg = ReplayCfg { layers: vec![Layer::Generic, Layer::Prelude], ..cfg };
